@@ -815,11 +815,17 @@ func (ch *Channel) canSend() bool {
 // Call before calling nextPacketMsg()
 // Goroutine-safe
 func (ch *Channel) isSendPending() bool {
-	if len(ch.sending) == 0 {
+	// ch.sending is nil when no message is in flight. A dequeued empty message must stay
+	// pending (non-nil) until nextPacketMsg has sent its EOF packet, otherwise the next call
+	// dequeues another message over it and the empty one is lost.
+	if ch.sending == nil {
 		if len(ch.sendQueue) == 0 {
 			return false
 		}
 		ch.sending = <-ch.sendQueue
+		if ch.sending == nil {
+			ch.sending = []byte{}
+		}
 	}
 	return true
 }
